@@ -1262,7 +1262,13 @@ def check(run):
         if shift:
             run.dist("resumed: restarted from other coordinates (%s)" % ("refused" if want_refused else "accepted"))
         other_cfg = bool(c.get("resume_cfg")) and not shift       # (with other parameters the first step may legitimately raise the reflection error)
-        if bool(recs2[0]["err"]) != want_refused and not other_cfg:
+        # an error at the first step is a refusal unless the model (which does not know the refusal in its step) raises the reflection error there
+        try:
+            m_first_err = bool(parse_model(rmout[n_])[1][0]["err"])
+        except Exception:
+            m_first_err = False
+        impl_refused = bool(recs2[0]["err"]) and (want_refused or not m_first_err)
+        if impl_refused != want_refused and not other_cfg:
             if want_refused:
                 run.violation("resume:wrong-state-accepted", "the restarted job computes %r at the restart step, the state file has %r (difference above width/2 = %r): accepted"
                               % (cs["events"][K - 1]["x"], xs, c["width"] / 2), rep)
@@ -1270,7 +1276,7 @@ def check(run):
                 run.violation("resume:refused", "state saved after engine step %d (absolute step %d, variable %s) and resumed with coordinates giving %r at the first evaluation (saved value %r, width %r): the restart is refused"
                               % (K - 1, aw[K - 1][1], "awake" if aw[K - 1][2] else "asleep", cs["events"][K - 1]["x"], xs, c["width"]), rep)
             continue
-        if m_refused is not None and m_refused != bool(recs2[0]["err"]) and aw[K - 1][2] and not other_cfg:
+        if m_refused is not None and m_refused != impl_refused and aw[K - 1][2] and not other_cfg:
             run.mismatch("restart:refused", {"scenario": scn, "model_case": rlines[n_]}, recs2[0]["err"], m_refused)
             continue
         if want_refused:
